@@ -111,6 +111,13 @@ def cycle (fixed : Bool) (s : St) (now : Int) : Option (St × Out) :=
     | none => none
     | some (s2, out) => some (s2, { timedOut := to, resps := out })
 
+/-- ModifySubscription that changes the publishing INTERVAL (`set_publishing_interval`; the service
+also re-applies the counts and resets both counters): from now on "interval elapsed" is computed
+from the new interval; `last_time_publishing_interval_elapsed` is not touched -/
+def setInterval (s : St) (intervalUs : Nat) : St :=
+  { s with interval := intervalUs,
+           z := { s.z with sub := s.z.sub.map fun x => C22.modifySub x x.maxKa x.maxLife } }
+
 inductive PubOut where
   | ok (s : St) (out : List Resp)
   | tooMany (s : St) (out : List Resp)
